@@ -24,6 +24,8 @@
 //!       `import::import`: for each key the configuration's `format.fields[key]` is replaced by
 //!       `FieldPos::Template(TemplateField { template })` and the CSV imported;
 //!       T: `(ok <enc rendered of record 1> ...)` (payee / commodity of each transaction) | `(err KIND)` | `(panic MSG)`
+//!
+//! `hx c16 text` — the importer on the BYTES of a file, see `run_text`.
 use std::collections::{BTreeMap, BTreeSet};
 use std::io::{BufRead, BufReader, Write};
 use std::path::Path;
@@ -242,9 +244,158 @@ fn run_cells(out: &mut dyn Write) -> i32 {
     0
 }
 
+/// header and records (with the line their `Position` names) as the `csv` crate decodes the BYTES under the importer's reader
+/// configuration; reading stops at the first record that is not UTF-8 (`utf8err`), a skipped line that is not UTF-8 is `ioerr`
+fn decode_cells_bytes(cfg: &config::ConfigEntry, src: &[u8]) -> (String, String) {
+    let mut br = BufReader::new(src);
+    let mut rb = csv::ReaderBuilder::new();
+    rb.flexible(true);
+    if !cfg.format.delimiter.is_empty() {
+        rb.delimiter(cfg.format.delimiter.as_bytes()[0]);
+    }
+    let mut skipped = String::new();
+    for _ in 0..cfg.format.skip.head {
+        skipped.clear();
+        if br.read_line(&mut skipped).is_err() {
+            return ("(ioerr)".to_string(), "()".to_string());
+        }
+    }
+    let mut rdr = rb.from_reader(br);
+    let mut parts: Vec<String> = Vec::new();
+    let mut lines: Vec<String> = Vec::new();
+    let show = |r: &csv::StringRecord| format!("({})", r.iter().map(enc).collect::<Vec<_>>().join(" "));
+    match rdr.headers() {
+        Ok(h) => {
+            parts.push(show(h));
+            lines.push(h.position().map(|p| p.line().to_string()).unwrap_or_else(|| "-".to_string()));
+        }
+        Err(_) => return ("(ok utf8err)".to_string(), "()".to_string()),
+    }
+    for rec in rdr.records() {
+        match rec {
+            Ok(r) => {
+                parts.push(show(&r));
+                lines.push(r.position().map(|p| p.line().to_string()).unwrap_or_else(|| "-".to_string()));
+            }
+            Err(_) => {
+                parts.push("utf8err".to_string());
+                break;
+            }
+        }
+    }
+    (format!("(ok {})", parts.join(" ")), format!("({})", lines.join(" ")))
+}
+
+/// `hx c16 text`: the importer on the BYTES of a file (`src` may be any byte string).
+///   `<id> cfg=<enc YAML> src=<enc bytes>` -> `<id> import=<I> errmsg=<enc Display of the error> cells=<C> lines=(l0 l1 ..) dates=<D>`
+///   I as for `hx c16`; C = `(ok (h..) (c..) .. [utf8err])` | `(ioerr)`; `lines` = `position().line()` of the header and of
+///   every record; D as for `hx c16`.
+fn run_text(out: &mut dyn Write) -> i32 {
+    let stdin = std::io::stdin();
+    let mut cfg_cache: BTreeMap<String, Result<config::ConfigEntry, String>> = BTreeMap::new();
+    for line in stdin.lock().lines() {
+        let line = line.unwrap();
+        let mut it = line.split(' ').filter(|w| !w.is_empty());
+        let id = it.next().unwrap_or("").to_string();
+        let mut yaml = String::new();
+        let mut src: Vec<u8> = Vec::new();
+        for w in it {
+            if let Some((k, v)) = w.split_once('=') {
+                match k {
+                    "cfg" => yaml = sx::dec(v).unwrap_or_default(),
+                    "src" => src = sx::dec_bytes(v).unwrap_or_default(),
+                    _ => {}
+                }
+            }
+        }
+        let cfg = match cfg_cache.entry(yaml.clone()).or_insert_with(|| load_config(&yaml, "/data/statement.csv")).clone() {
+            Ok(c) => c,
+            Err(k) => {
+                writeln!(out, "{} import=(cfgerr {}) errmsg=~ cells=(err) lines=() dates=()", id, k).unwrap();
+                continue;
+            }
+        };
+        let cfg2 = cfg.clone();
+        let src2 = src.clone();
+        let r = sx::catch(std::panic::AssertUnwindSafe(move || {
+            let xacts = match import::import(&src2[..], Format::Csv, &cfg2) {
+                Ok(x) => x,
+                Err(e) => return (format!("(err {})", kind_of(&format!("{:?}", e))), format!("{}", e)),
+            };
+            let mut trees = Vec::new();
+            for xact in &xacts {
+                match xact.to_double_entry(&cfg2.account) {
+                    Ok(t) => trees.push(tree::txn(&t)),
+                    Err(e) => return (format!("(dberr {})", kind_of(&format!("{:?}", e))), format!("{}", e)),
+                }
+            }
+            (format!("(ok {})", trees.join(" ")), String::new())
+        }));
+        let (imp, errmsg) = match r {
+            Ok(x) => x,
+            Err(msg) => (format!("(panic {})", enc(&msg)), String::new()),
+        };
+        let cfg3 = cfg.clone();
+        let src3 = src.clone();
+        let (cells, lines) = sx::catch(std::panic::AssertUnwindSafe(move || decode_cells_bytes(&cfg3, &src3)))
+            .unwrap_or(("(err)".to_string(), "()".to_string()));
+        // every distinct cell chrono parses with the configured date format
+        let mut distinct: BTreeSet<String> = BTreeSet::new();
+        {
+            let cfg4 = cfg.clone();
+            let src4 = src.clone();
+            if let Ok(Some(rows)) = sx::catch(std::panic::AssertUnwindSafe(move || decode_cells_lossy(&cfg4, &src4))) {
+                for r in rows.iter().skip(1) {
+                    for c in r {
+                        distinct.insert(c.clone());
+                    }
+                }
+            }
+        }
+        let mut dates = Vec::new();
+        for c in &distinct {
+            let fmt = cfg.format.date.clone();
+            let c2 = c.clone();
+            if let Ok(Ok(d)) = sx::catch(move || chrono::NaiveDate::parse_from_str(&c2, &fmt)) {
+                dates.push(format!("({} {})", enc(c), tree::date(d)));
+            }
+        }
+        writeln!(out, "{} import={} errmsg={} cells={} lines={} dates=({})", id, imp, enc(&errmsg), cells, lines, dates.join(" ")).unwrap();
+    }
+    0
+}
+
+/// the UTF-8 records in front of the first undecodable one (for the date table)
+fn decode_cells_lossy(cfg: &config::ConfigEntry, src: &[u8]) -> Option<Vec<Vec<String>>> {
+    let mut br = BufReader::new(src);
+    let mut rb = csv::ReaderBuilder::new();
+    rb.flexible(true);
+    if !cfg.format.delimiter.is_empty() {
+        rb.delimiter(cfg.format.delimiter.as_bytes()[0]);
+    }
+    let mut skipped = String::new();
+    for _ in 0..cfg.format.skip.head {
+        skipped.clear();
+        br.read_line(&mut skipped).ok()?;
+    }
+    let mut rdr = rb.from_reader(br);
+    let mut out = Vec::new();
+    out.push(rdr.headers().ok()?.iter().map(|s| s.to_string()).collect());
+    for rec in rdr.records() {
+        match rec {
+            Ok(r) => out.push(r.iter().map(|s| s.to_string()).collect()),
+            Err(_) => break,
+        }
+    }
+    Some(out)
+}
+
 pub fn run(args: &[String], out: &mut dyn Write) -> i32 {
     if args.first().map(|s| s.as_str()) == Some("cells") {
         return run_cells(out);
+    }
+    if args.first().map(|s| s.as_str()) == Some("text") {
+        return run_text(out);
     }
     let stdin = std::io::stdin();
     for line in stdin.lock().lines() {
